@@ -42,13 +42,14 @@ def pvals_file(sc):
     return p
 
 
-def dec_cell(length, value, dt=0, m=None, keep=None):
+def dec_cell(length, value, dt=0, m=None, keep=None, bare=False):
     """Decode one frame with the real library; -1 = exception, else nameIx*16 + flags.  keep: list that receives
-    (decoded object, input frame object) so that the same cell can be computed again later (obj_cell)."""
+    (decoded object, input frame object) so that the same cell can be computed again later (obj_cell).  bare: the
+    optional arguments are left out (device type 0, no map -- the documented defaults)."""
     from dali import command, frame
     try:
         f = frame.ForwardFrame(length, value)
-        r = command.from_frame(f, devicetype=dt, dev_inst_map=m)
+        r = command.from_frame(f) if bare else command.from_frame(f, devicetype=dt, dev_inst_map=m)
     except Exception:
         return -1
     if keep is not None:
